@@ -154,6 +154,20 @@ class Lifecycle:
                 await self.dev.listen(self.port)
             if outcome != "OSError":
                 self.fail("refused-connect-outcome", "OSError", outcome)
+        elif a == "refused_context":
+            await self.dev.unlisten(self.port)
+            try:
+                try:
+                    async with self.api:
+                        outcome = "entered"
+                except OSError:
+                    outcome = "OSError"
+                except Exception as exc:
+                    outcome = f"{type(exc).__name__}: {exc}"
+            finally:
+                await self.dev.listen(self.port)
+            if outcome != "OSError":
+                self.fail("refused-context-outcome", "OSError", outcome)
         elif a in ("context_ok", "context_body_raises"):
             try:
                 async with self.api as inner:
@@ -208,7 +222,7 @@ def nontrivial(steps):
     acts = [s["action"] for s in steps]
     failure_seen = False
     for a in acts:
-        if a in ("op_raises", "refused_connect", "context_body_raises"):
+        if a in ("op_raises", "refused_connect", "refused_context", "context_body_raises"):
             failure_seen = True
         if failure_seen and a in ("connect", "context_ok"):
             return True
@@ -264,6 +278,11 @@ def machine_factory(typ):
             @rule()
             def refused_connect(self):
                 self.do({"action": "refused_connect"})
+
+            @precondition(lambda self: not self.sys.model_connected)
+            @rule()
+            def refused_context(self):
+                self.do({"action": "refused_context"})
 
             @precondition(lambda self: not self.sys.model_connected)
             @rule(n=st.integers(0, 3))
